@@ -63,6 +63,9 @@ func init() {
 		Gen: func(seed uint64, tier string) interface{} {
 			r := Sub(seed, "config")
 			s := &C08Spec{Words: genTwinnyWords(r), Constructions: 8 + r.Intn(10), Native: 12, Seed: seed, Length: 1 + r.Intn(5)}
+			if r.Chance(0.12) {
+				s.Length = pick(r, []int{33, 64, 72, 73, 100, 237, 300, 647, 700, 1000})
+			}
 			if tier == "thorough" {
 				s.Constructions = 16 + r.Intn(48)
 				s.Native = 48
@@ -81,6 +84,9 @@ func init() {
 				}
 				s.Constructions, s.Native = 2, 6
 				s.Seps = s.Seps[:1]
+				if r.Bool() {
+					s.Length = pick(r, []int{72, 73, 74, 100, 200})
+				}
 			}
 			if r.Chance(0.5) {
 				cc := genCharCfg(r, charOpt{small: true, budget: 40, maxLen: 2, maxReq: 1, noEmptied: true})
